@@ -7,7 +7,7 @@
 From Coq Require Import Reals Lra Lia Arith Psatz ZArith.
 From Flocq Require Import Core Relative.
 From Interval Require Import Tactic.
-From SpdVerif Require Import Model.FinSum Model.Schmidt Proofs.FinSum_lemmas.
+From SpdVerif Require Import Model.FinSum Model.Schmidt Proofs.FinSum_lemmas Proofs.C11_svd.
 Local Open Scope R_scope.
 
 Section Rnd.
@@ -117,14 +117,28 @@ Section Rnd.
   Lemma low_step n : 2 - U (S n) <= (1 - eps) * (2 - U n).
   Proof. rewrite U_S. pose proof (U_ge1 n). nra. Qed.
 
-  (* ---- the computation after the SVD *)
-  Variables (n : nat) (sv : nat -> R).
+  Lemma U_add k n : (1 + eps) ^ k * U n = U (n + k).
+  Proof. unfold U. rewrite Nat.add_comm, pow_add. reflexivity. Qed.
+
+  Lemma low_pow k n : 2 - U (n + k) <= (1 - eps) ^ k * (2 - U n).
+  Proof.
+    induction k as [|k IH].
+    - rewrite Nat.add_0_r. simpl. lra.
+    - rewrite Nat.add_succ_r. eapply Rle_trans; [apply low_step|].
+      replace ((1 - eps) ^ S k * (2 - U n)) with ((1 - eps) * ((1 - eps) ^ k * (2 - U n))) by (simpl; ring).
+      apply Rmult_le_compat_l; [lra|exact IH].
+  Qed.
+
+  (* ---- the computation after the SVD.  sv: the exact normalised singular values sigma_k / sigma_max (non-negative);
+     x: what the code holds for them, each within one rounding of the exact value (x_k = fl(sigma_k / sigma_max)) *)
+  Variables (n : nat) (sv x : nat -> R).
   Hypothesis Hsv : forall k, 0 <= sv k.
+  Hypothesis Hx : forall k, (1 - eps) * sv k <= x k <= (1 + eps) * sv k.
   (* the rounded summation scheme used for the two power sums: anything with the relative accuracy of n rounded additions *)
   Variable sumf : (nat -> R) -> R.
   Hypothesis Hsum_rel : forall a, (forall k, 0 <= a k) -> (2 - U n) * rsum n a <= sumf a <= U n * rsum n a.
   Hypothesis Hsum_nonneg : forall a, (forall k, 0 <= a k) -> 0 <= sumf a.
-  Definition t2 (k : nat) : R := rnd (sv k * sv k).
+  Definition t2 (k : nat) : R := rnd (x k * x k).
   Definition t4 (k : nat) : R := rnd (t2 k * t2 k).
   Definition Nhat : R := sumf t2.
   Definition Dhat : R := sumf t4.
@@ -132,57 +146,49 @@ Section Rnd.
   Let N := sv_norm_squared n sv.
   Let D := sv_kinv n sv.
 
-  Lemma t2_rel k : (1 - eps) * (sv k * sv k) <= t2 k <= (1 + eps) * (sv k * sv k).
-  Proof. apply rnd_rel. apply Rmult_le_pos; apply Hsv. Qed.
+  Lemma x_nonneg k : 0 <= x k.
+  Proof. pose proof (Hx k) as [L _]. pose proof (Hsv k). assert (0 <= (1 - eps) * sv k) by (apply Rmult_le_pos; lra). lra. Qed.
 
-
-  Lemma t2_nonneg k : 0 <= t2 k.
-  Proof. pose proof (t2_rel k). pose proof (Hsv k). assert (0 <= sv k * sv k) by nra. nra. Qed.
-
-  Lemma t4_rel k : (1 - eps) ^ 3 * sv k ^ 4 <= t4 k <= (1 + eps) ^ 3 * sv k ^ 4.
+  Lemma t2_rel k : (1 - eps) ^ 3 * (sv k * sv k) <= t2 k <= (1 + eps) ^ 3 * (sv k * sv k).
   Proof.
-    pose proof (t2_rel k) as [L Hh]. pose proof (t2_nonneg k) as H0.
-    assert (Hq : 0 <= sv k * sv k) by (pose proof (Hsv k); nra).
-    pose proof (rnd_rel (t2 k * t2 k) (Rmult_le_pos _ _ H0 H0)) as [L4 H4]. fold (t4 k) in L4, H4.
-    assert (Lq : ((1 - eps) * (sv k * sv k)) * ((1 - eps) * (sv k * sv k)) <= t2 k * t2 k) by (apply Rmult_le_compat; nra).
-    assert (Hq2 : t2 k * t2 k <= ((1 + eps) * (sv k * sv k)) * ((1 + eps) * (sv k * sv k))) by (apply Rmult_le_compat; nra).
+    pose proof (Hx k) as [L Hh]. pose proof (Hsv k) as H0. pose proof (x_nonneg k) as X0.
+    assert (L0 : 0 <= (1 - eps) * sv k) by (apply Rmult_le_pos; lra).
+    assert (Lq : ((1 - eps) * sv k) * ((1 - eps) * sv k) <= x k * x k) by (apply Rmult_le_compat; lra).
+    assert (Hq : x k * x k <= ((1 + eps) * sv k) * ((1 + eps) * sv k)) by (apply Rmult_le_compat; lra).
+    pose proof (rnd_rel (x k * x k) (Rmult_le_pos _ _ X0 X0)) as [L2 H2]. fold (t2 k) in L2, H2.
     split.
-    - eapply Rle_trans; [|exact L4]. replace ((1 - eps) ^ 3 * sv k ^ 4) with ((1 - eps) * (((1 - eps) * (sv k * sv k)) * ((1 - eps) * (sv k * sv k)))) by ring.
+    - eapply Rle_trans; [|exact L2].
+      replace ((1 - eps) ^ 3 * (sv k * sv k)) with ((1 - eps) * (((1 - eps) * sv k) * ((1 - eps) * sv k))) by ring.
       apply Rmult_le_compat_l; lra.
-    - eapply Rle_trans; [exact H4|]. replace ((1 + eps) ^ 3 * sv k ^ 4) with ((1 + eps) * (((1 + eps) * (sv k * sv k)) * ((1 + eps) * (sv k * sv k)))) by ring.
+    - eapply Rle_trans; [exact H2|].
+      replace ((1 + eps) ^ 3 * (sv k * sv k)) with ((1 + eps) * (((1 + eps) * sv k) * ((1 + eps) * sv k))) by ring.
       apply Rmult_le_compat_l; lra.
   Qed.
 
-  Lemma N_nonneg : 0 <= N.
-  Proof. unfold N, sv_norm_squared. apply rsum_nonneg; intros; pose proof (Hsv k); nra. Qed.
-  Lemma D_nonneg : 0 <= D.
-  Proof. unfold D, sv_kinv. apply rsum_nonneg; intros. pose proof (Hsv k). assert (0 <= sv k * sv k) by nra. replace (sv k ^ 4) with ((sv k * sv k) * (sv k * sv k)) by ring. nra. Qed.
+  Lemma sq_nonneg k : 0 <= sv k * sv k.
+  Proof. apply Rle_0_sqr. Qed.
 
-  Definition g : R := U (n + 3) - 1.
-
-  Theorem Nhat_rel : (1 - g) * N <= Nhat <= (1 + g) * N.
+  Lemma t2_nonneg k : 0 <= t2 k.
   Proof.
-    pose proof (Hsum_rel t2 t2_nonneg) as [L Hh]. fold Nhat in L, Hh.
-    assert (S1 : (1 - eps) * N <= rsum n t2 <= (1 + eps) * N).
-    { unfold N, sv_norm_squared. rewrite <- !rsum_scal_l. split; apply rsum_le; intros; apply t2_rel. }
-    pose proof N_nonneg as HN. pose proof (U_ge1 n) as HU.
-    assert (G1 : (1 + eps) * U n <= U (n + 3)) by (rewrite <- U_S; apply U_mono; lia).
-    assert (G2 : 2 - U (n + 3) <= (1 - eps) * (2 - U n)) by (eapply Rle_trans; [|apply low_step]; pose proof (U_mono (S n) (n + 3) ltac:(lia)); lra).
-    assert (R0 : 0 <= rsum n t2) by (apply rsum_nonneg; intros; apply t2_nonneg).
-    unfold g. split.
-    - destruct (Rle_dec 0 (2 - U n)) as [Hp|Hn].
-      + assert (A1 : (2 - U (n + 3)) * N <= ((1 - eps) * (2 - U n)) * N) by (apply Rmult_le_compat_r; assumption).
-        assert (A2 : (2 - U n) * ((1 - eps) * N) <= (2 - U n) * rsum n t2) by (apply Rmult_le_compat_l; [exact Hp|apply S1]).
-        lra.
-      + assert (Hneg : 2 - U (n + 3) <= 0).
-        { apply Rnot_le_lt in Hn. assert (0 <= 1 - eps) by lra.
-          assert ((1 - eps) * (2 - U n) <= 0) by (replace 0 with ((1 - eps) * 0) by ring; apply Rmult_le_compat_l; lra). lra. }
-        pose proof (Hsum_nonneg t2 t2_nonneg) as Hpos. fold Nhat in Hpos.
-        assert ((2 - U (n + 3)) * N <= 0) by (replace 0 with (0 * N) by ring; apply Rmult_le_compat_r; assumption).
-        lra.
-    - assert (A3 : U n * rsum n t2 <= U n * ((1 + eps) * N)) by (apply Rmult_le_compat_l; [lra|apply S1]).
-      assert (A4 : ((1 + eps) * U n) * N <= U (n + 3) * N) by (apply Rmult_le_compat_r; assumption).
-      lra.
+    pose proof (t2_rel k) as [L _]. pose proof (sq_nonneg k).
+    assert (0 <= (1 - eps) ^ 3 * (sv k * sv k)) by (apply Rmult_le_pos; [apply pow_le; lra|assumption]). lra.
+  Qed.
+
+  Lemma t4_rel k : (1 - eps) ^ 7 * sv k ^ 4 <= t4 k <= (1 + eps) ^ 7 * sv k ^ 4.
+  Proof.
+    pose proof (t2_rel k) as [L Hh]. pose proof (t2_nonneg k) as H0. pose proof (sq_nonneg k) as Hq.
+    assert (E3 : 0 <= (1 - eps) ^ 3) by (apply pow_le; lra).
+    assert (L0 : 0 <= (1 - eps) ^ 3 * (sv k * sv k)) by (apply Rmult_le_pos; assumption).
+    pose proof (rnd_rel (t2 k * t2 k) (Rmult_le_pos _ _ H0 H0)) as [L4 H4]. fold (t4 k) in L4, H4.
+    assert (Lq : ((1 - eps) ^ 3 * (sv k * sv k)) * ((1 - eps) ^ 3 * (sv k * sv k)) <= t2 k * t2 k) by (apply Rmult_le_compat; lra).
+    assert (Hq2 : t2 k * t2 k <= ((1 + eps) ^ 3 * (sv k * sv k)) * ((1 + eps) ^ 3 * (sv k * sv k))) by (apply Rmult_le_compat; lra).
+    split.
+    - eapply Rle_trans; [|exact L4].
+      replace ((1 - eps) ^ 7 * sv k ^ 4) with ((1 - eps) * (((1 - eps) ^ 3 * (sv k * sv k)) * ((1 - eps) ^ 3 * (sv k * sv k)))) by ring.
+      apply Rmult_le_compat_l; lra.
+    - eapply Rle_trans; [exact H4|].
+      replace ((1 + eps) ^ 7 * sv k ^ 4) with ((1 + eps) * (((1 + eps) ^ 3 * (sv k * sv k)) * ((1 + eps) ^ 3 * (sv k * sv k)))) by ring.
+      apply Rmult_le_compat_l; lra.
   Qed.
 
   Lemma t4_nonneg k : 0 <= t4 k.
@@ -191,40 +197,58 @@ Section Rnd.
     assert (0 <= (1 - eps) * (t2 k * t2 k)) by (apply Rmult_le_pos; [lra|apply Rmult_le_pos; assumption]). lra.
   Qed.
 
+  Lemma N_nonneg : 0 <= N.
+  Proof. unfold N, sv_norm_squared. apply rsum_nonneg; intros; apply sq_nonneg. Qed.
+  Lemma D_nonneg : 0 <= D.
+  Proof. unfold D, sv_kinv. apply rsum_nonneg; intros. replace (sv k ^ 4) with ((sv k * sv k) * (sv k * sv k)) by ring. apply Rle_0_sqr. Qed.
+
+  Definition g : R := U (n + 7) - 1.
+
+  (* terms within (1 +- eps)^k of exact non-negative terms, k <= 7, summed by the scheme: within 1 +- g of the exact sum *)
+  Lemma sumf_lift k (a b : nat -> R) :
+    (k <= 7)%nat -> (forall i, 0 <= b i) -> (forall i, (1 - eps) ^ k * b i <= a i <= (1 + eps) ^ k * b i) ->
+    (1 - g) * rsum n b <= sumf a <= (1 + g) * rsum n b.
+  Proof.
+    intros Hk Hb Hab.
+    assert (Ek : 0 <= (1 - eps) ^ k) by (apply pow_le; lra).
+    assert (Ha : forall i, 0 <= a i).
+    { intros i. pose proof (Hab i) as [L _]. assert (0 <= (1 - eps) ^ k * b i) by (apply Rmult_le_pos; [exact Ek|apply Hb]). lra. }
+    pose proof (Hsum_rel a Ha) as [L Hh].
+    assert (S1 : (1 - eps) ^ k * rsum n b <= rsum n a <= (1 + eps) ^ k * rsum n b).
+    { rewrite <- !rsum_scal_l. split; apply rsum_le; intros; apply Hab. }
+    assert (B0 : 0 <= rsum n b) by (apply rsum_nonneg; intros; apply Hb).
+    pose proof (U_ge1 n) as HU.
+    assert (G1 : (1 + eps) ^ k * U n <= U (n + 7)) by (rewrite U_add; apply U_mono; lia).
+    assert (G2 : 2 - U (n + 7) <= (1 - eps) ^ k * (2 - U n)).
+    { eapply Rle_trans; [|apply low_pow]. pose proof (U_mono (n + k) (n + 7) ltac:(lia)). lra. }
+    unfold g. split.
+    - destruct (Rle_dec 0 (2 - U n)) as [Hp|Hn].
+      + assert (A1 : (2 - U (n + 7)) * rsum n b <= ((1 - eps) ^ k * (2 - U n)) * rsum n b) by (apply Rmult_le_compat_r; assumption).
+        assert (A2 : (2 - U n) * ((1 - eps) ^ k * rsum n b) <= (2 - U n) * rsum n a) by (apply Rmult_le_compat_l; [exact Hp|apply S1]).
+        lra.
+      + assert (Hneg : 2 - U (n + 7) <= 0).
+        { apply Rnot_le_lt in Hn.
+          assert ((1 - eps) ^ k * (2 - U n) <= 0) by (replace 0 with ((1 - eps) ^ k * 0) by ring; apply Rmult_le_compat_l; lra). lra. }
+        pose proof (Hsum_nonneg a Ha) as Hpos.
+        assert ((2 - U (n + 7)) * rsum n b <= 0) by (replace 0 with (0 * rsum n b) by ring; apply Rmult_le_compat_r; assumption).
+        lra.
+    - assert (A3 : U n * rsum n a <= U n * ((1 + eps) ^ k * rsum n b)) by (apply Rmult_le_compat_l; [lra|apply S1]).
+      assert (A4 : ((1 + eps) ^ k * U n) * rsum n b <= U (n + 7) * rsum n b) by (apply Rmult_le_compat_r; assumption).
+      lra.
+  Qed.
+
+  Theorem Nhat_rel : (1 - g) * N <= Nhat <= (1 + g) * N.
+  Proof. unfold N, sv_norm_squared, Nhat. apply (sumf_lift 3); [lia|intros; apply sq_nonneg|intros; apply t2_rel]. Qed.
 
   Theorem Dhat_rel : (1 - g) * D <= Dhat <= (1 + g) * D.
   Proof.
-    pose proof (Hsum_rel t4 t4_nonneg) as [L Hh]. fold Dhat in L, Hh.
-    assert (S1 : (1 - eps) ^ 3 * D <= rsum n t4 <= (1 + eps) ^ 3 * D).
-    { unfold D, sv_kinv. rewrite <- !rsum_scal_l. split; apply rsum_le; intros; apply t4_rel. }
-    pose proof D_nonneg as HD. pose proof (U_ge1 n) as HU.
-    assert (G1 : (1 + eps) ^ 3 * U n = U (n + 3)) by (unfold U; rewrite Nat.add_comm, pow_add; reflexivity).
-    assert (G2 : 2 - U (n + 3) <= (1 - eps) ^ 3 * (2 - U n)).
-    { replace (n + 3)%nat with (S (S (S n))) by lia.
-      pose proof (low_step n) as a1. pose proof (low_step (S n)) as a2. pose proof (low_step (S (S n))) as a3.
-      assert (b2 : (1 - eps) * (2 - U (S n)) <= (1 - eps) * ((1 - eps) * (2 - U n))) by (apply Rmult_le_compat_l; lra).
-      assert (b3 : (1 - eps) * (2 - U (S (S n))) <= (1 - eps) * ((1 - eps) * ((1 - eps) * (2 - U n)))) by (apply Rmult_le_compat_l; lra).
-      replace ((1 - eps) ^ 3 * (2 - U n)) with ((1 - eps) * ((1 - eps) * ((1 - eps) * (2 - U n)))) by ring. lra. }
-    assert (R0 : 0 <= rsum n t4) by (apply rsum_nonneg; intros; apply t4_nonneg).
-    assert (E3 : 0 <= (1 - eps) ^ 3) by (apply pow_le; lra).
-    unfold g. split.
-    - destruct (Rle_dec 0 (2 - U n)) as [Hp|Hn].
-      + assert (A1 : (2 - U (n + 3)) * D <= ((1 - eps) ^ 3 * (2 - U n)) * D) by (apply Rmult_le_compat_r; assumption).
-        assert (A2 : (2 - U n) * ((1 - eps) ^ 3 * D) <= (2 - U n) * rsum n t4) by (apply Rmult_le_compat_l; [exact Hp|apply S1]).
-        lra.
-      + assert (Hneg : 2 - U (n + 3) <= 0).
-        { apply Rnot_le_lt in Hn.
-          assert ((1 - eps) ^ 3 * (2 - U n) <= 0) by (replace 0 with ((1 - eps) ^ 3 * 0) by ring; apply Rmult_le_compat_l; lra). lra. }
-        pose proof (Hsum_nonneg t4 t4_nonneg) as Hpos. fold Dhat in Hpos.
-        assert ((2 - U (n + 3)) * D <= 0) by (replace 0 with (0 * D) by ring; apply Rmult_le_compat_r; assumption).
-        lra.
-    - assert (A3 : U n * rsum n t4 <= U n * ((1 + eps) ^ 3 * D)) by (apply Rmult_le_compat_l; [lra|apply S1]).
-      rewrite <- G1. lra.
+    unfold D, sv_kinv, Dhat. apply (sumf_lift 7); [lia| |intros; apply t4_rel].
+    intros i. replace (sv i ^ 4) with ((sv i * sv i) * (sv i * sv i)) by ring. apply Rle_0_sqr.
   Qed.
 
   Lemma div_mono x1 x2 d1 d2 : 0 <= x1 <= x2 -> 0 < d1 <= d2 -> x1 / d2 <= x2 / d1.
   Proof.
-    intros [Hx0 Hx] [Hd0 Hd]. unfold Rdiv.
+    intros [Hx0 Hx12] [Hd0 Hd]. unfold Rdiv.
     apply Rmult_le_compat; try assumption.
     - left. apply Rinv_0_lt_compat. lra.
     - apply Rinv_le_contravar; assumption.
@@ -237,7 +261,7 @@ Section Rnd.
       <= (N * N / D) * ((1 + g) * (1 + g) * ((1 + eps) * (1 + eps)) / (1 - g)).
   Proof.
     intros HD Hg.
-    assert (Hg0 : 0 <= g) by (unfold g; pose proof (U_ge1 (n + 3)); lra).
+    assert (Hg0 : 0 <= g) by (unfold g; pose proof (U_ge1 (n + 7)); lra).
     pose proof Nhat_rel as [NL NU]. pose proof Dhat_rel as [DL DU]. pose proof N_nonneg as HN.
     assert (Nh0 : 0 <= Nhat) by (apply Hsum_nonneg; apply t2_nonneg).
     assert (Dh0 : 0 < Dhat) by (assert (0 < (1 - g) * D) by (apply Rmult_lt_0_compat; lra); lra).
@@ -278,30 +302,48 @@ Proof. apply relative_error_N_FLX. lia. Qed.
 Lemma b64_eps_val : b64_eps = / 9007199254740992.
 Proof. unfold b64_eps. simpl bpow. unfold Z.pow_pos; simpl. field. Qed.
 
-(* for sides up to 40 the post-SVD arithmetic changes K by less than 1e-13 relative, for any summation scheme with the accuracy
-   of n rounded additions *)
-Theorem schmidt_rounding_b64_gen choice n sv (sumf : (nat -> R) -> R) :
-  (n <= 40)%nat -> (forall k, 0 <= sv k) -> 0 < sv_kinv n sv ->
+(* for sides up to 40 the arithmetic after the SVD changes K by less than 1e-13 relative, for any summation scheme with the accuracy
+   of n rounded additions.  sigma: the (non-negative) singular values the SVD returned, m = max sigma > 0;
+   the code computes x_k = fl(sigma_k / m), then the power sums of the x_k *)
+Definition b64_normalised (choice : Z -> bool) (n : nat) (sigma : nat -> R) : nat -> R :=
+  fun k => b64_rnd choice (sigma k / sv_max n sigma).
+
+Lemma b64_eps_nonneg : 0 <= b64_eps.
+Proof. rewrite b64_eps_val. lra. Qed.
+Lemma b64_eps_small : b64_eps <= 1 / 2.
+Proof. rewrite b64_eps_val. lra. Qed.
+
+Theorem schmidt_rounding_b64_gen choice n sigma (sumf : (nat -> R) -> R) :
+  (n <= 40)%nat -> (forall k, 0 <= sigma k) -> 0 < sv_max n sigma -> 0 < sv_kinv n sigma ->
   (forall a, (forall k, 0 <= a k) -> (2 - U b64_eps n) * rsum n a <= sumf a <= U b64_eps n * rsum n a) ->
   (forall a, (forall k, 0 <= a k) -> 0 <= sumf a) ->
-  let K := sv_norm_squared n sv * sv_norm_squared n sv / sv_kinv n sv in
-  Rabs (Khat (b64_rnd choice) sv sumf - K) <= 1e-13 * K.
+  let K := sv_norm_squared n sigma * sv_norm_squared n sigma / sv_kinv n sigma in
+  Rabs (Khat (b64_rnd choice) (b64_normalised choice n sigma) sumf - K) <= 1e-13 * K.
 Proof.
-  intros Hn Hsv HD Hrel Hnn K.
-  assert (He : 0 <= b64_eps) by (rewrite b64_eps_val; lra).
-  assert (Hs : b64_eps <= 1 / 2) by (rewrite b64_eps_val; lra).
+  intros Hn Hsig Hm HD0 Hrel Hnn K.
+  pose proof b64_eps_nonneg as He. pose proof b64_eps_small as Hs.
+  set (m := sv_max n sigma) in *. set (y := fun k => sigma k / m).
+  assert (Hy : forall k, 0 <= y k) by (intros k; unfold y; apply Rmult_le_pos; [apply Hsig|left; apply Rinv_0_lt_compat; exact Hm]).
+  assert (Hx : forall k, (1 - b64_eps) * y k <= b64_normalised choice n sigma k <= (1 + b64_eps) * y k).
+  { intros k. unfold b64_normalised. fold m. apply (rnd_rel (b64_rnd choice) b64_eps (b64_rnd_rel choice)). apply Hy. }
+  assert (EK : sv_norm_squared n y * sv_norm_squared n y / sv_kinv n y = K).
+  { pose proof (schmidt_of_sv_scale n sigma m ltac:(lra) ltac:(lra)) as E. unfold schmidt_of_sv in E. exact E. }
+  assert (HD : 0 < sv_kinv n y).
+  { replace (sv_kinv n y) with (sv_kinv n sigma / m ^ 4).
+    - apply Rdiv_lt_0_compat; [exact HD0|apply pow_lt; exact Hm].
+    - unfold sv_kinv, y, Rdiv. rewrite <- rsum_scal_r. apply rsum_ext; intros; field; lra. }
   assert (Hg1 : g b64_eps n <= g b64_eps 40).
-  { unfold g. pose proof (U_mono b64_eps He (n + 3) (40 + 3) ltac:(lia)). lra. }
-  assert (Hg0 : 0 <= g b64_eps n) by (unfold g; pose proof (U_ge1 b64_eps He (n + 3)); lra).
-  assert (Hg40 : g b64_eps 40 <= 5e-15).
+  { unfold g. pose proof (U_mono b64_eps He (n + 7) (40 + 7) ltac:(lia)). lra. }
+  assert (Hg0 : 0 <= g b64_eps n) by (unfold g; pose proof (U_ge1 b64_eps He (n + 7)); lra).
+  assert (Hg40 : g b64_eps 40 <= 6e-15).
   { unfold g, U. rewrite b64_eps_val. interval with (i_prec 120). }
-  pose proof (Khat_rel (b64_rnd choice) b64_eps He (b64_rnd_rel choice) Hs n sv Hsv sumf Hrel Hnn HD ltac:(lra)) as [L Hh].
-  fold K in L, Hh.
+  pose proof (Khat_rel (b64_rnd choice) b64_eps He (b64_rnd_rel choice) Hs n y (b64_normalised choice n sigma) Hy Hx sumf Hrel Hnn HD ltac:(lra)) as [L Hh].
+  rewrite EK in L, Hh.
   assert (K0 : 0 <= K).
-  { unfold K. apply Rmult_le_pos; [|left; apply Rinv_0_lt_compat; exact HD].
-    apply Rmult_le_pos; apply (N_nonneg n sv Hsv). }
+  { unfold K. apply Rmult_le_pos; [|left; apply Rinv_0_lt_compat; exact HD0].
+    apply Rmult_le_pos; apply (N_nonneg n sigma). }
   set (gg := g b64_eps n) in *.
-  assert (Hgu : gg <= 5e-15) by lra.
+  assert (Hgu : gg <= 6e-15) by lra.
   assert (Lo : 1 - 1e-13 <= (1 - gg) * (1 - gg) * ((1 - b64_eps) * (1 - b64_eps)) / (1 + gg)).
   { rewrite b64_eps_val. interval with (i_prec 120). }
   assert (Hi : (1 + gg) * (1 + gg) * ((1 + b64_eps) * (1 + b64_eps)) / (1 - gg) <= 1 + 1e-13).
@@ -311,30 +353,25 @@ Proof.
   - assert (K * ((1 + gg) * (1 + gg) * ((1 + b64_eps) * (1 + b64_eps)) / (1 - gg)) <= K * (1 + 1e-13)) by (apply Rmult_le_compat_l; assumption). lra.
 Qed.
 
-Lemma b64_eps_nonneg : 0 <= b64_eps.
-Proof. rewrite b64_eps_val. lra. Qed.
-Lemma b64_eps_small : b64_eps <= 1 / 2.
-Proof. rewrite b64_eps_val. lra. Qed.
-
 (* left-to-right accumulation *)
-Theorem schmidt_rounding_b64 choice n sv :
-  (n <= 40)%nat -> (forall k, 0 <= sv k) -> 0 < sv_kinv n sv ->
-  let K := sv_norm_squared n sv * sv_norm_squared n sv / sv_kinv n sv in
-  Rabs (Khat (b64_rnd choice) sv (fsum (b64_rnd choice) n) - K) <= 1e-13 * K.
+Theorem schmidt_rounding_b64 choice n sigma :
+  (n <= 40)%nat -> (forall k, 0 <= sigma k) -> 0 < sv_max n sigma -> 0 < sv_kinv n sigma ->
+  let K := sv_norm_squared n sigma * sv_norm_squared n sigma / sv_kinv n sigma in
+  Rabs (Khat (b64_rnd choice) (b64_normalised choice n sigma) (fsum (b64_rnd choice) n) - K) <= 1e-13 * K.
 Proof.
-  intros Hn Hsv HD. apply schmidt_rounding_b64_gen; try assumption.
+  intros Hn Hsv Hm HD. apply schmidt_rounding_b64_gen; try assumption.
   - intros a Ha. apply (fsum_rel (b64_rnd choice) b64_eps b64_eps_nonneg (b64_rnd_rel choice) n a Ha).
   - intros a Ha. eapply fsum_nonneg; first [apply b64_rnd_rel | apply b64_eps_small | apply b64_eps_nonneg | exact Ha].
 Qed.
 
 (* ANY summation order: every binary tree over the n terms (nalgebra's unrolled dot products, pairwise or blocked sums) *)
-Theorem schmidt_rounding_b64_any_order choice n sv (t : stree) :
-  (n <= 40)%nat -> (forall k, 0 <= sv k) -> 0 < sv_kinv n sv ->
+Theorem schmidt_rounding_b64_any_order choice n sigma (t : stree) :
+  (n <= 40)%nat -> (forall k, 0 <= sigma k) -> 0 < sv_max n sigma -> 0 < sv_kinv n sigma ->
   (forall a, teval t a = rsum n a) -> (theight t <= n)%nat ->
-  let K := sv_norm_squared n sv * sv_norm_squared n sv / sv_kinv n sv in
-  Rabs (Khat (b64_rnd choice) sv (tfl (b64_rnd choice) t) - K) <= 1e-13 * K.
+  let K := sv_norm_squared n sigma * sv_norm_squared n sigma / sv_kinv n sigma in
+  Rabs (Khat (b64_rnd choice) (b64_normalised choice n sigma) (tfl (b64_rnd choice) t) - K) <= 1e-13 * K.
 Proof.
-  intros Hn Hsv HD Ht Hh. apply schmidt_rounding_b64_gen; try assumption.
+  intros Hn Hsv Hm HD Ht Hh. apply schmidt_rounding_b64_gen; try assumption.
   - intros a Ha. pose proof (tfl_err (b64_rnd choice) b64_eps b64_eps_nonneg (b64_rnd_rel choice) t a) as E.
     rewrite Ht in E. rewrite (Ht (fun k => Rabs (a k))) in E.
     rewrite (rsum_ext n (fun k => Rabs (a k)) a) in E by (intros; apply Rabs_pos_eq; apply Ha).
@@ -346,14 +383,16 @@ Proof.
   - intros a Ha. eapply tfl_nonneg; first [apply b64_rnd_rel | apply b64_eps_small | apply b64_eps_nonneg | exact Ha].
 Qed.
 
-(* non-vacuity: three singular values, the balanced tree ((0 1) 2) *)
+(* non-vacuity: three singular values (2, 1, 1), the tree ((0 1) 2) *)
 Example rounding_example_tree :
   let t := Node (Node (Leaf 0) (Leaf 1)) (Leaf 2) in
-  (forall a, teval t a = rsum 3 a) /\ (theight t <= 3)%nat /\ (forall k : nat, 0 <= (fun _ => 1) k) /\ 0 < sv_kinv 3 (fun _ => 1).
+  let sigma := fun k : nat => match k with O => 2 | _ => 1 end in
+  (forall a, teval t a = rsum 3 a) /\ (theight t <= 3)%nat /\ (forall k : nat, 0 <= sigma k) /\ 0 < sv_max 3 sigma /\ 0 < sv_kinv 3 sigma.
 Proof.
   cbv zeta. repeat split.
   - intros a. unfold rsum. cbn. ring.
   - cbn. lia.
-  - intros; lra.
+  - intros [|k]; lra.
+  - cbn. unfold Rmax. repeat destruct (Rle_dec _ _); lra.
   - unfold sv_kinv, rsum. cbn. lra.
 Qed.
